@@ -224,6 +224,27 @@ def grain_symbols_with_group_numbers(v: List[int]) -> bool:
                 and bool(sp.is_atom) == (q == 0) and not sp.is_surface and not sp.is_electron and sp.basename == f"{sym}{grp}")
 
 
+SURF_MOLS = [("CO", {"C": 1, "O": 1}, 0), ("H2O", {"H": 2, "O": 1}, 0), ("CH3OH", {"C": 1, "H": 4, "O": 1}, 0), ("H", {"H": 1}, 0), ("C+", {"C": 1}, 1), ("Mg", {"Mg": 1}, 0), ("HCOOCH3", {"H": 4, "C": 2, "O": 2}, 0), ("O-", {"O": 1}, -1)]
+SURF_GROUPS = ["", "1", "2", "12"]
+
+
+def surface_prefix_with_group_number(v: List[int]) -> bool:
+    """
+    pre: len(v) == 3 and all(0 <= x < 8 for x in v)
+    post: _ == True
+    """
+    # ice on the n-th grain population: '#2CO', 'G12CH3OH' -- the number between prefix and formula is a label
+    a, b, c = prelude.concrete(v)
+    with prelude.NoTracing():
+        _setup()
+        mol, ec, q = SURF_MOLS[a]
+        grp = SURF_GROUPS[b % 4]
+        pref = "#" if c % 2 == 0 else "G"
+        name = f"{pref}{grp}{mol}"
+        sp = Species(name) if pref == "#" else Species(name, surface_prefix="G")
+        return _agree(sp, dict(ec), q, True, mol) and sp.surface_group == (int(grp) if grp else 0) and sp.name == name
+
+
 BAD = ["H2x", "Hx", "xH", "H?", "2H", "H2O!", "C_2", "h2", "He 2", "Q", "H2+o", "H.2", "H-2", "CO@", "Zz"]
 
 
